@@ -11,14 +11,15 @@ def _hh(*names):
     return "-DVF_HELPER_HASH=0x" + h.hexdigest()[:12]
 
 TARGETS = {
-    "c17_adapters": dict(src="props/c17_adapters.cpp", flags=[_hh("c17_common.hpp")], flavors=["gcc", "asan"], asan_div=4),
+    "c17_adapters": dict(src="props/c17_adapters.cpp", flags=[_hh("c17_common.hpp", "c17_block2.hpp")], flavors=["gcc", "asan"], asan_div=4),
+    "c17_compose": dict(src="props/c17_compose.cpp", flags=[_hh("c17_common.hpp", "c17_block2.hpp", "c13_common.hpp")], flavors=["gcc", "asan"], asan_div=4),
     "c17_roworder_amg": dict(src="props/c17_roworder_amg.cpp", flags=[_hh("c17_common.hpp", "c17_roworder.hpp")], flavors=["gcc", "asan"], asan_div=6),
     "c17_roworder_cpr": dict(src="props/c17_roworder_cpr.cpp", flags=[_hh("c17_common.hpp", "c17_roworder.hpp", "c13_common.hpp")], flavors=["gcc", "asan"], asan_div=6),
 }
 
 PROPS = {
     "C17": dict(
-        targets=["c17_adapters", "c17_roworder_amg", "c17_roworder_cpr"],
+        targets=["c17_adapters", "c17_compose", "c17_roworder_amg", "c17_roworder_cpr"],
         level="exploration",
         rule="tape-decoded matrices: random sparse (square/rectangular, empty rows, explicit zeros, sorted or shuffled rows), SPD M-matrices and general-valued matrices on the graph families "
              "path/grid2/grid2x9/grid3/er/tree/band/star/union/diag (optionally structurally non-symmetric, rows optionally shuffled). Adapters: tuples of std::vector / amgcl::iterator_range over raw "
@@ -26,6 +27,11 @@ PROPS = {
              "(any), Eigen::SparseMatrix<RowMajor,int|ptrdiff_t>, Eigen::Map, uBlas compressed_matrix through backend::map, adapter::make_matrix row builder, adapter::block_matrix<2x2>, shared crs: "
              "rows/cols/nonzeros, per-row (col,val) sequence (multiset for formats that sort), SpMV (long double reference, bound 2(m+3)u sum|a||x|) and the crs copy are compared with the source; zero-copy: "
              "pointer identity, user arrays on exact-size heap blocks memcmp-unchanged after all amgcl objects (incl. amg / make_solver built from the shared_ptr) are destroyed (ASan twin). "
+             "Row-iterator protocol: for every adapter reachable through backend::row_begin (all tuple forms, crs, zero-copy crs, row builder, uBlas map, Eigen SparseMatrix / Map, reordered_matrix, "
+             "scaled_matrix, block_matrix) three row iterators (tape-chosen rows, repeats allowed) are opened at once and advanced in a tape-chosen interleaved order; every (col,value) sequence must "
+             "equal the reference row. Compositions: block_matrix<2x2> over tuple<vector>, tuple<iterator_range<int*>>, zero_copy crs, make_matrix(row builder) and scaled_matrix(tuple) -- entries "
+             "exactly the block form of the reference, interleaved block-row iterators, SpMV of the crs<2x2> copy; block_matrix(make_matrix(builder)) + amg<2x2> + BiCGStab set up and solved through the "
+             "composed adapter with the true residual of the scalar system; reorder<>(block_matrix(tuple)) (examples/solver.cpp) entry check -- currently excluded as known finding F-block-iterator-copy. "
              "reorder<CM / reverse CM>: permutation validity, B(i,j)=A(perm i,perm j) bitwise, forward/inverse/view, solution mapped back solves the original system (true residual, long double). "
              "scale_diagonal: entries s_i a_ij s_j within 8u, unit diagonal, both documented rhs options, post-scaled solution solves the original system in the scaled norm and (times cond(S)) in the 2-norm. "
              "Row order: preconditioner built from tape-shuffled rows vs built from sorted rows, apply() bitwise equal on 3 vectors at 1 thread, for amg over all 4 coarsenings x 9 relaxations (runtime interface, "
